@@ -346,7 +346,12 @@ where
                     match next {
                         // Wait for notification when the stream goes pending
                         Poll::Pending       => {
-                            stream_core.lock().unwrap().notify_stream_closed = Some(desync_waker.clone());
+                            let mut stream_core = stream_core.lock().unwrap();
+
+                            // The output stream might have been dropped since we checked: it won't notify us again, so stop now
+                            if stream_core.closed { return false; }
+
+                            stream_core.notify_stream_closed = Some(desync_waker.clone());
                             return true
                         },
 
